@@ -680,4 +680,147 @@ def flattenAgents {α} : List (α ⊕ List α) → List α
   | .inl a :: rest => a :: flattenAgents rest
   | .inr as :: rest => as ++ flattenAgents rest
 
+/-! ## the `office-lan` node set (`OfficeLANAdder.add_nodes_to_net`, creation.py)
+
+The adder is an imperative loop with three counters (current edge switch, next free port on it, next free port on the core
+switch). `officeBuild` follows it statement by statement; `officeDeclared` is the closed form of docs/source/node_sets.rst:
+`num_pcs` computers, one 24-port edge switch per 23 computers (port 24 is the uplink), a core switch when more than one edge
+switch is needed, an optional router on port 24 of the core switch (or of the only edge switch). -/
+
+structure OfficeCfg where
+  lanName : String
+  subnetBase : Nat
+  ipStart : Nat
+  numPcs : Nat
+  /-- `include_router` (`none` = key absent: default True) -/
+  includeRouter : Option Bool := none
+  /-- `bandwidth` (`none` = key absent: default 100) -/
+  bandwidth : Option Nat := none
+deriving DecidableEq, Repr
+
+inductive OKind | core | edge | router | pc
+deriving DecidableEq, Repr
+
+/-- a node the adder creates: its hostname, and for addressed nodes the fourth octet of `192.168.<subnet_base>.<octet>` -/
+structure ONode where
+  kind : OKind
+  name : String
+  octet : Option Nat := none
+  /-- has `default_gateway` 192.168.<subnet_base>.1 -/
+  gateway : Bool := false
+deriving DecidableEq, Repr
+
+structure OfficeInv where
+  nodes : List ONode
+  links : List LinkInv
+deriving DecidableEq, Repr
+
+inductive OErr
+  | ipRange        -- ConfigSchema.check_ip_range: pcs_ip_block_start + num_pcs >= 254
+  | ipStartSmall   -- pcs_ip_block_start <= number of switches
+  | unboundRouter  -- the `else` branch of the loop names `router` although none was created (UnboundLocalError)
+deriving DecidableEq, Repr
+
+def pcsPerSwitch : Nat := 23        -- effective_network_interface
+def uplinkPort : Nat := 24          -- "num_ports": 24; every uplink uses port 24
+def officeIpLimit : Nat := 254
+
+/-- `num_of_switches_required(num_nodes)` -/
+def numSwitches (n : Nat) : Nat := n / pcsPerSwitch + (if n % pcsPerSwitch > 0 then 1 else 0)
+
+def coreName (lan : String) : String := "switch_core_" ++ lan
+def routerName (lan : String) : String := "router_" ++ lan
+def edgeName (lan : String) (k : Nat) : String := "switch_edge_" ++ toString k ++ "_" ++ lan
+def pcName (lan : String) (i : Nat) : String := "pc_" ++ toString i ++ "_" ++ lan
+
+def oLink (a : String) (pa : Nat) (b : String) (pb : Nat) (bw : Nat) : LinkInv := { a := a, pa := pa, b := b, pb := pb, bandwidth := bw }
+
+structure OSt where
+  switchN : Nat
+  switchPort : Nat
+  corePort : Nat
+  nodes : List ONode
+  links : List LinkInv
+deriving DecidableEq, Repr
+
+/-- one iteration of `for i in range(1, config.num_pcs + 1)` -/
+def officeStep (c : OfficeCfg) (multi hasRouter : Bool) (st : OSt) (i : Nat) : Except OErr OSt :=
+  let lan := c.lanName
+  let bw := c.bandwidth.getD defaultBandwidth
+  let opened : Except OErr OSt :=
+    if st.switchPort = pcsPerSwitch then
+      let k := st.switchN + 1
+      let sw : ONode := { kind := .edge, name := edgeName lan k }
+      if multi then
+        .ok { st with switchN := k, switchPort := 0, corePort := st.corePort + 1, nodes := st.nodes ++ [sw],
+                      links := st.links ++ [oLink (coreName lan) (st.corePort + 1) (edgeName lan k) uplinkPort bw] }
+      else if hasRouter then
+        .ok { st with switchN := k, switchPort := 0, nodes := st.nodes ++ [sw],
+                      links := st.links ++ [oLink (routerName lan) 1 (edgeName lan k) uplinkPort bw] }
+      else .error .unboundRouter
+    else .ok st
+  match opened with
+  | .error e => .error e
+  | .ok st =>
+    let pc : ONode := { kind := .pc, name := pcName lan i, octet := some (i + c.ipStart - 1), gateway := hasRouter }
+    .ok { st with switchPort := st.switchPort + 1, nodes := st.nodes ++ [pc],
+                  links := st.links ++ [oLink (edgeName lan st.switchN) (st.switchPort + 1) (pcName lan i) 1 bw] }
+
+def officeLoop (c : OfficeCfg) (multi hasRouter : Bool) : OSt → List Nat → Except OErr OSt
+  | st, [] => .ok st
+  | st, i :: rest => match officeStep c multi hasRouter st i with
+    | .error e => .error e
+    | .ok st' => officeLoop c multi hasRouter st' rest
+
+/-- `OfficeLANAdder.add_nodes_to_net` (after `ConfigSchema` validation) -/
+def officeBuild (c : OfficeCfg) : Except OErr OfficeInv :=
+  if c.ipStart + c.numPcs ≥ officeIpLimit then .error .ipRange else
+  let m := numSwitches c.numPcs
+  if c.ipStart ≤ m then .error .ipStartSmall else
+  let lan := c.lanName
+  let bw := c.bandwidth.getD defaultBandwidth
+  let multi : Bool := decide (m > 1)
+  let hasRouter : Bool := c.includeRouter.getD true
+  let n0 : List ONode := if multi then [{ kind := .core, name := coreName lan }] else []
+  let n1 : List ONode := if hasRouter then n0 ++ [{ kind := .router, name := routerName lan, octet := some 1 }] else n0
+  let l1 : List LinkInv := if hasRouter ∧ multi then [oLink (routerName lan) 1 (coreName lan) uplinkPort bw] else []
+  let n2 := n1 ++ [{ kind := .edge, name := edgeName lan 1 }]
+  let l2 : List LinkInv :=
+    if multi then l1 ++ [oLink (coreName lan) 1 (edgeName lan 1) uplinkPort bw]
+    else if hasRouter then l1 ++ [oLink (routerName lan) 1 (edgeName lan 1) uplinkPort bw] else l1
+  match officeLoop c multi hasRouter { switchN := 1, switchPort := 0, corePort := 1, nodes := n2, links := l2 }
+      (List.range' 1 c.numPcs) with
+  | .error e => .error e
+  | .ok st => .ok { nodes := st.nodes, links := st.links }
+
+/-- edge switch and port of computer `i` (1-based): 23 computers per switch, ports 1..23 -/
+def edgeOf (i : Nat) : Nat := (i - 1) / pcsPerSwitch + 1
+def portOf (i : Nat) : Nat := (i - 1) % pcsPerSwitch + 1
+/-- computer `i` is the first one on a further edge switch -/
+def opensSwitch (i : Nat) : Bool := decide (1 < i) && decide ((i - 1) % pcsPerSwitch = 0)
+
+def declaredPcNodes (c : OfficeCfg) (hasRouter : Bool) (i : Nat) : List ONode :=
+  (if opensSwitch i then [({ kind := .edge, name := edgeName c.lanName (edgeOf i) } : ONode)] else [])
+    ++ [{ kind := .pc, name := pcName c.lanName i, octet := some (i + c.ipStart - 1), gateway := hasRouter }]
+
+def declaredPcLinks (c : OfficeCfg) (i : Nat) : List LinkInv :=
+  let bw := c.bandwidth.getD defaultBandwidth
+  (if opensSwitch i then [oLink (coreName c.lanName) (edgeOf i) (edgeName c.lanName (edgeOf i)) uplinkPort bw] else [])
+    ++ [oLink (edgeName c.lanName (edgeOf i)) (portOf i) (pcName c.lanName i) 1 bw]
+
+/-- what the documentation says an `office-lan` entry builds (valid entries) -/
+def officeDeclared (c : OfficeCfg) : OfficeInv :=
+  let lan := c.lanName
+  let bw := c.bandwidth.getD defaultBandwidth
+  let multi : Bool := decide (numSwitches c.numPcs > 1)
+  let hasRouter : Bool := c.includeRouter.getD true
+  { nodes := (if multi then [({ kind := .core, name := coreName lan } : ONode)] else [])
+      ++ (if hasRouter then [({ kind := .router, name := routerName lan, octet := some 1 } : ONode)] else [])
+      ++ [{ kind := .edge, name := edgeName lan 1 }]
+      ++ (List.range' 1 c.numPcs).flatMap (declaredPcNodes c hasRouter),
+    links := (if hasRouter ∧ multi then [oLink (routerName lan) 1 (coreName lan) uplinkPort bw] else [])
+      ++ (if multi then [oLink (coreName lan) 1 (edgeName lan 1) uplinkPort bw]
+          else if hasRouter then [oLink (routerName lan) 1 (edgeName lan 1) uplinkPort bw] else [])
+      ++ (List.range' 1 c.numPcs).flatMap (declaredPcLinks c) }
+
 end Primaite.Config
